@@ -370,7 +370,8 @@ def inject(case, k, mode, exc_name, ref, deep, k2=None, cold=False):
             status = "fired-ok" if outcome2 == "raise" else "swallowed-ok"
     tol = kernel.Tol(*[v for v in vals if not isinstance(v, str)]) if any(
         not isinstance(v, str) for v in vals) else None
-    exact = tol is None or (tol.exact and not tol.rounding_possible)
+    exact = tol is None or (tol.exact and all(kernel.max_denominator(v) <= 10**4 for v in vals
+                                              if not isinstance(v, str)))
     # 1. operands still denote their regions
     for i, (o, v0) in enumerate(zip(objs, vals)):
         try:
